@@ -27,19 +27,23 @@ fn reprint(text: &str) -> Option<String> {
     Some(t.to_string())
 }
 
-// wrap some integer literals / constant keywords of a program text in parentheses (deterministic pseudo-random choice)
-fn paren_atoms(text: &str, salt: u64) -> String {
+// wrap integer literals / constant keywords of a program text in parentheses: the `which`-th atom only, or (None) all of them
+fn paren_atoms(text: &str, which: Option<usize>) -> (String, usize) {
     let src: &'static str = tj::leak(text);
-    let Ok(toks) = tokenizer::tokenize(None, src) else { return text.to_string() };
+    let Ok(toks) = tokenizer::tokenize(None, src) else { return (text.to_string(), 0) };
     let mut out = String::new();
     let mut pos = 0;
-    for (i, t) in toks.iter().enumerate() {
+    let mut natoms = 0;
+    for t in toks.iter() {
         let (s, e) = (t.source_range.start, t.source_range.end);
         out.push_str(&text[pos..s]);
         let atom = matches!(t.variant, crate::token::Variant::IntegerLiteral(_) | crate::token::Variant::True | crate::token::Variant::False | crate::token::Variant::Integer
             | crate::token::Variant::Boolean | crate::token::Variant::Type);
-        let pick = (i as u64).wrapping_mul(2654435761).wrapping_add(salt.wrapping_mul(40503)) % 3 == 0;
-        if atom && pick {
+        let pick = atom && which.map_or(true, |w| w == natoms);
+        if atom {
+            natoms += 1;
+        }
+        if pick {
             out.push('(');
             out.push_str(&text[s..e]);
             out.push(')');
@@ -49,7 +53,7 @@ fn paren_atoms(text: &str, salt: u64) -> String {
         pos = e;
     }
     out.push_str(&text[pos..]);
-    out
+    (out, natoms)
 }
 
 fn same(a: &Value, b: &Value) -> bool {
@@ -88,8 +92,11 @@ pub fn case(line: &str) -> String {
         n += 1;
         // ... and redundant parentheses added around atoms of the minimal rendering (literals and constant keywords are
         // expressions wherever they occur, so `2` may always be written `(2)`)
-        for variant in 0..3u64 {
-            check("add-redundant-parentheses", &paren_atoms(&p, variant + rec["t"].to_string().len() as u64), &mut bad);
+        let (all, natoms) = paren_atoms(&p, None);
+        check("add-redundant-parentheses", &all, &mut bad);
+        n += 1;
+        for w in 0..natoms.min(12) {
+            check("add-redundant-parentheses", &paren_atoms(&p, Some(w)).0, &mut bad);
             n += 1;
         }
     }
